@@ -11,3 +11,4 @@ func setYieldHook(f func(string)) bool { return false }
 func globalsDump() string              { return "" }
 func disableStepHook()                 {}
 func setBlockHook(f func())            {}
+func resetPools() {}
